@@ -95,6 +95,13 @@ Proof.
   - apply cut_at_app. apply clean_no; [exact Hn|cbn [In]; intuition].
 Qed.
 
+Lemma unquote_clean : forall n, clean n = true -> unquote n = n.
+Proof.
+  intros n Hn. unfold unquote.
+  rewrite (replace_char_notin " ") by (apply clean_no; [exact Hn|cbn [In]; intuition]).
+  apply remove_char_notin. apply clean_no; [exact Hn|cbn [In]; intuition].
+Qed.
+
 Lemma elementise_render : forall e, cleanp e -> okp e -> elementise (render e) = forget e.
 Proof.
   intros [[[o n] l] cl] [Hn [Hl Hcl]] Hok. unfold okp in Hok. unfold render, forget.
@@ -117,7 +124,7 @@ Proof.
         - revert K. apply clean_no; [exact Hn|cbn [In]; intuition].
         - revert K. apply plen_no; [exact Hl|cbn [In]; intuition]. }
       rewrite (proj2 (has_char_false ")" _) Nclose).
-      rewrite (cut_name n (plen l) Hn); [reflexivity|].
+      rewrite (cut_name n (plen l) Hn); [rewrite unquote_clean by exact Hn; reflexivity|].
       destruct l as [x|]; [right; eexists; reflexivity|left; reflexivity].
     + (* closes clades *)
       assert (Hc : has_char ")" (n ++ plen l ++ closings (x :: cl)) = true).
@@ -128,7 +135,7 @@ Proof.
       rewrite (remove_char_notin ")" (plen l)) by (apply plen_no; [exact Hl|cbn [In]; intuition]).
       rewrite remove_closings by exact Hcl.
       rewrite (cut_name n _ Hn) by apply plens_head.
-      rewrite strip_ws_clean by exact Hn.
+      rewrite strip_ws_clean by exact Hn. rewrite unquote_clean by exact Hn.
       rewrite !count_char_app.
       rewrite (count_char_notin ")" n) by (apply clean_no; [exact Hn|cbn [In]; intuition]).
       rewrite (count_char_notin ")" (plen l)) by (apply plen_no; [exact Hl|cbn [In]; intuition]).
@@ -146,8 +153,7 @@ Proof.
     + rewrite (cut_name n (plen l) Hn) by (destruct l as [x|]; [right; eexists; reflexivity|left; reflexivity]).
       rewrite (replace_char_notin "(") by (apply clean_no; [exact Hn|cbn [In]; intuition]).
       rewrite (replace_char_notin ")") by (apply clean_no; [exact Hn|cbn [In]; intuition]).
-      rewrite (replace_char_notin " ") by (apply clean_no; [exact Hn|cbn [In]; intuition]).
-      rewrite (remove_char_notin "'") by (apply clean_no; [exact Hn|cbn [In]; intuition]).
+      rewrite unquote_clean by exact Hn.
       reflexivity.
     + apply clean_Forall in Hn. destruct Hn as [Hne _]. destruct n; [congruence|discriminate].
     + intros c Hc. apply eqb_neq. intros E. subst c. apply Nopen. exact Hc.
